@@ -131,6 +131,20 @@ func runC11(c *harness.Ctx, idx int) {
 	}
 	setPoison(poison)
 	defer setPoison(false)
+	// history: other messages for the same reader go through the pooled unknown-field
+	// index first (other offsets, other numbers of unknown fields, one cut short)
+	for k, nprime := 0, r.Intn(3); k < nprime; k++ {
+		pv := gen.NewValue(r, w, vc)
+		prate := r.Intn(6)
+		pm := ref.EncodeWith(w, pv.Elem(), &ref.EncodeOpts{Order: r.Perm, Omit: func(_ *schema.Struct, f *schema.Field) bool {
+			return f.Req != schema.Required && r.Intn(10) < prate
+		}})
+		if r.Chance(1, 4) && len(pm) > 3 {
+			pm = pm[:1+r.Intn(len(pm)-1)]
+		}
+		fDecode(pm, reflect.New(t.Go).Interface())
+		c.Count("priming_decodes", 1)
+	}
 	g, reg := mon.GuardedCopy(msg, false)
 	defer reg.Free()
 	act := reflect.New(t.Go)
